@@ -258,8 +258,17 @@ class World:
             t.reset(it)
 
     def theory_saturate(self, it, formulas, transient=False):
+        if it.silent:
+            return
         for t in self.theories:
             t.saturate(it, formulas)
+
+    def theory_snapshot(self, it):
+        return [t.snapshot(it) for t in self.theories]
+
+    def theory_restore(self, it, snap):
+        for t, s in zip(self.theories, snap):
+            t.restore(it, s)
 
     # ---- model -> concrete --------------------------------------------------------------------
     def concretize(self, model, v, it):
@@ -497,10 +506,9 @@ class World:
             j = z3.Int(it.namer.fresh("j"))
             a = L.arrays[0]
             body = (r.t <= z3.Select(a, j)) if is_min else (z3.Select(a, j) <= r.t)
-            it.S.add(z3.ForAll([j], z3.Implies(z3.And(0 <= j, j < L.len), body),
-                               patterns=[z3.Select(a, j)]))
+            it.sadd(z3.ForAll([j], z3.Implies(z3.And(0 <= j, j < L.len), body)))
             k = z3.Int(it.namer.fresh("arg"))
-            it.S.add(z3.And(0 <= k, k < L.len, z3.Select(a, k) == r.t))
+            it.sadd(z3.And(0 <= k, k < L.len, z3.Select(a, k) == r.t))
         return r
 
     def to_dyn(self, it, v):
